@@ -1034,3 +1034,46 @@ def partition_concatenations(rep, rule, idx, spec, what):
                     f"partition order, so position k of a vector built over it is not element k of `{filt[n.left.id]}` when the two kinds are "
                     f"interleaved ({what})", line=n.lineno)
     return found
+
+
+def parameter_views(rep, rule, idx, only_modules=None):
+    """A read-only property that mirrors a constructor parameter hands back that parameter: `x` returns `self._x` (what the
+    constructor stored for `x`) or `self.signature.x` (the same-named view of the signature).  A getter that returns the
+    stored value of *another* parameter of the same class is a swapped view: everything that reads the property -- the rules
+    of this framework included, which treat getters as aliases of what they return -- sees the wrong quantity."""
+    import ast as _ast
+    n = 0
+    for cls in idx.all_classes():
+        if only_modules is not None and cls.module.rel not in only_modules:
+            continue
+        names = {nm for nm, fs in cls.methods.items() if any(f.is_property for f in fs)}
+        init = cls.method("__init__")
+        params = set(init.params) if init is not None else set()
+        for nm in sorted(names):
+            f = next(f_ for f_ in cls.methods[nm] if f_.is_property)
+            body = [b for b in f.node.body if not (isinstance(b, _ast.Expr) and isinstance(b.value, _ast.Constant))]
+            if len(body) != 1 or not isinstance(body[0], _ast.Return) or body[0].value is None:
+                continue
+            v = body[0].value
+            got = None
+            if isinstance(v, _ast.Attribute) and isinstance(v.value, _ast.Name) and v.value.id == "self" and v.attr.startswith("_"):
+                got = v.attr[1:]
+            elif isinstance(v, _ast.Attribute) and isinstance(v.value, _ast.Attribute) and isinstance(v.value.value, _ast.Name) and \
+                    v.value.value.id == "self" and v.value.attr == "signature":
+                got = v.attr
+            if got is None or (nm not in params and nm not in names):
+                continue
+            n += 1
+            if got == nm:
+                rep.ok(rule, f.site, f"{cls.qual}.{nm} is a view of its own parameter", _ast.unparse(v), nontrivial=False)
+            elif (got in names or got in params) and (
+                    any(isinstance(x, _ast.Attribute) and isinstance(x.ctx, _ast.Store) and x.attr == "_" + nm
+                        for fs_ in cls.methods.values() for f_ in fs_ for x in _ast.walk(f_.node)) or
+                    (isinstance(v.value, _ast.Attribute) and nm in params)):
+                # the class does have a stored value (or a same-named signature view) for this property, and the getter hands out another one
+                rep.bad(rule, f.site, f"{cls.qual}.{nm} is a view of its own parameter",
+                        f"the getter returns {_ast.unparse(v)}, the stored value of `{got}`: `{nm}` and `{got}` are swapped for every reader "
+                        "of the property (equality, create(), the interface's own views, and every component that sizes itself from it)",
+                        line=v.lineno)
+    rep.count("parameter_views", n)
+    return n
